@@ -218,6 +218,10 @@ class ArrEvaluator(Evaluator):
         # row masks combine:  (types == 0) & (sources > sinks)  selects what  x[types == 0][(sources > sinks)[types == 0]]  selects
         if isinstance(e.op, ast.BitAnd) and isinstance(l, SelV) and isinstance(r, SelV):
             return l.combine(r)
+        # ... and unite when both only select edge types:  (types == 0) | (types == 1)  is  isin(types, [0, 1])
+        if isinstance(e.op, ast.BitOr) and isinstance(l, SelV) and isinstance(r, SelV) and not l.cmp and not r.cmp and \
+                l.types is not None and r.types is not None:
+            return SelV(l.types | r.types)
         if isinstance(l, ArrV) or isinstance(r, ArrV):
             if isinstance(e.op, ast.Mult):
                 arr, other = (l, r) if isinstance(l, ArrV) else (r, l)
